@@ -103,6 +103,48 @@ def judge(stream: list[dict], batch_size: int, time_buffer: int, wd: str, tag: s
     return "held", None, info
 
 
+def judge_two_rounds(stream: list[dict], batch_size: int, time_buffer: int, cut: int
+                     ) -> tuple[str, dict | None, dict]:
+    """One long-lived holder: ingest the first part, clean, ingest the rest (which moves the
+    extremes of the ingested data), clean again with the same buffer.  The second cleaning
+    must use the window of everything this holder has ingested."""
+    info: dict = {}
+    part1, part2 = stream[:cut], stream[cut:]
+    if not part1 or not part2:
+        return "skip:empty part", None, info
+    win1 = store.window_of(part1, time_buffer)
+    win2 = store.window_of(part1 + part2, time_buffer)
+    if win1 is None or win2 is None:
+        return "skip:time buffer larger than the data", None, info
+    holder = None
+    try:
+        holder = store.new_holder("sqlite:///:memory:", batch_size, time_buffer)
+        store.ingest(holder, part1)
+        holder.remove_inconsistent_jobs()
+        holder.remove_jobs_outside_of_time_window()
+        holder.update_job_names_by_root_span()
+        store.ingest(holder, part2)
+        holder.remove_inconsistent_jobs()
+        holder.remove_jobs_outside_of_time_window()
+        holder.update_job_names_by_root_span()
+        after, _assoc, _n = store.dump(holder)
+    except Exception as exc:
+        return f"violated:two-rounds:exception:{type(exc).__name__}", {"exc": repr(exc)[:300]}, info
+    finally:
+        if holder is not None:
+            holder.engine.dispose()
+    m1 = store.model_clean(store.model_first_wins(part1), win1)
+    want = store.model_clean(store.model_first_wins(part2, m1), win2)
+    info["two_round_survivors"] = len({s["job_id"] for s in want.values()})
+    info["window_moved"] = win1 != win2
+    d = store.diff_nodes(after, want)
+    if d:
+        sym = "trace-not-removed" if d["extra"] else (
+            "intact-trace-touched:span-deleted" if d["missing"] else "workflow-name-or-field-wrong")
+        return "violated:two-rounds:" + sym, d, info
+    return "held", None, info
+
+
 def judge_pipeline(stream: list[dict], batch_size: int, time_buffer: int, wd: str, tag: str,
                    unique: bool, rng: random.Random) -> tuple[str, dict | None, dict]:
     """The same store driven through the real otel_to_pv(config, ingest_data=True[, unique
@@ -258,6 +300,16 @@ def run_chunk(case: dict) -> dict:
             if v2.startswith("violated") and len(fails) < 4:
                 fails.append({"symptom": v2[9:], "detail": d2, "stream": stream, "batch_size": b,
                               "time_buffer": tb, "meta": dict(meta, pipeline=True, unique=uq)})
+        if idx % 5 == 1 and len(stream) >= 4:
+            cut = rng.randint(1, len(stream) - 1)
+            v3, d3, info3 = judge_two_rounds(stream, b, tb, cut)
+            n += 1
+            bump("two_rounds:" + (v3 if v3.startswith("skip") else v3.split(":")[0]))
+            if info3.get("window_moved"):
+                bump("two_rounds_window_moved_between_rounds")
+            if v3.startswith("violated") and len(fails) < 4:
+                fails.append({"symptom": v3[9:], "detail": d3, "stream": stream, "batch_size": b,
+                              "time_buffer": tb, "meta": dict(meta, two_rounds=True, cut=cut)})
         if not samples and info.get("removed_traces", 0) >= 2 and len(stream) < 25:
             samples.append({"time_buffer_min": tb, "batch_size": b, "kinds": meta["kinds"],
                             "spans": [[s["event_id"], s["parent_event_id"], s["job_name"],
@@ -275,7 +327,9 @@ def main(tier: str, seed: int) -> int:
              "interleaved or shuffled with batch sizes {1,2,3,7,1000} and time_buffer "
              "{0,1,2,5,12,40} min; the three cleaning methods run in the order of otel_to_pv, and "
              "every fourth store additionally goes through the real otel_to_pv pipeline (JSON "
-             "files -> database file -> cleaning -> [unique graphs] -> PV stream). "
+             "files -> database file -> cleaning -> [unique graphs] -> PV stream), every fifth is "
+             "ingested and cleaned in two rounds on one long-lived holder; differently named "
+             "child spans may start before their root (clock skew). "
              "distinct non-trivial = distinct stores where at least one trace was removed and "
              "at least one survived")
     chk.assumptions = [
@@ -314,6 +368,10 @@ def main(tier: str, seed: int) -> int:
 
 
 def run_replay(case: dict) -> dict:
+    if case.get("meta", {}).get("two_rounds"):
+        v, d, info = judge_two_rounds(case["stream"], case["batch_size"], case["time_buffer"],
+                                      case["meta"]["cut"])
+        return {"status": "ok", "verdict": v, "detail": d}
     if case.get("meta", {}).get("pipeline"):
         wd = os.path.join(core.work_dir(), "c11r")
         v, d, info = judge_pipeline(case["stream"], case["batch_size"], case["time_buffer"], wd,
